@@ -69,7 +69,7 @@ type c9ctx struct {
 
 func newC9ctx(w *core.W) *c9ctx {
 	c := &c9ctx{w: w, cache: map[string]rel.Value{}, univ: c9Universe()}
-	sc := rel.EmptyScope.With("p", rel.NewNumber(c9OuterP))
+	sc := rel.EmptyScope.With("p", rel.NewNumber(c9OuterP)).With("q", rel.NewNumber(c9OuterP))
 	for n, f := range c9Sentinel {
 		sc = sc.With(n, rel.NewNumber(f))
 	}
@@ -261,6 +261,18 @@ func checkC09(w *core.W) {
 				return fmt.Sprintf("cond-pair ## cond v {%s: 1, %s: 2, _: 0}", sub[i].src(), sub[j].src())
 			}, func() { c.checkPair(sub, lets, pv, i, j) })
 		}
+	}
+	// ---- phase 2b: the same patterns binding dynamically scoped names, with a default arm that reads them ----
+	for i := range sub {
+		if !c9dynEligible(sub[i]) {
+			continue
+		}
+		k++
+		if !w.Mine(k) {
+			continue
+		}
+		i := i
+		w.Case(func() string { return "cond-dynamic ## " + c9dynProgram(sub[i]) }, func() { c.checkDynamic(sub, lets, pv, i) })
 	}
 	// ---- phase 3: the documentation's own examples ----
 	for i, ex := range c9DocExamples {
@@ -547,6 +559,136 @@ func (c *c9ctx) checkPair(sub []*c9pat, lets []*c9single, pv []*model.V, i, j in
 	}
 }
 
+// ---- phase 2b: dynamically scoped names ----
+
+// c9dynEligible: the pattern binds at least one plain name, each at most once, and none through the `:name` shorthand.
+func c9dynEligible(p *c9pat) bool {
+	seen := map[string]int{}
+	ok := true
+	var walk func(q *c9pat)
+	walk = func(q *c9pat) {
+		if q.k == 'n' {
+			seen[q.name]++
+		}
+		for _, it := range q.items {
+			if it.short {
+				ok = false
+			}
+			if it.rest && it.name != "" {
+				seen[it.name]++ // a rest name repeating a plain name is no repeat once the plain name is dynamic
+			}
+			if it.p != nil {
+				walk(it.p)
+			}
+		}
+	}
+	walk(p)
+	for _, n := range seen {
+		if n > 1 {
+			ok = false
+		}
+	}
+	plain := 0
+	var count func(q *c9pat)
+	count = func(q *c9pat) {
+		if q.k == 'n' {
+			plain++
+		}
+		for _, it := range q.items {
+			if it.p != nil {
+				count(it.p)
+			}
+		}
+	}
+	count(p)
+	return ok && plain > 0
+}
+
+// c9dynSrc renders the pattern with every plain name x written as the dynamically scoped @{x}.
+func c9dynSrc(p *c9pat) string {
+	var conv func(q *c9pat) *c9pat
+	conv = func(q *c9pat) *c9pat {
+		c := *q
+		if q.k == 'n' {
+			c.name = "@{" + q.name + "}"
+		}
+		c.items = nil
+		for _, it := range q.items {
+			if it.p != nil {
+				it.p = conv(it.p)
+			}
+			c.items = append(c.items, it)
+		}
+		return &c
+	}
+	return conv(p).src()
+}
+
+func c9dynProgram(p *c9pat) string {
+	return "let @{a} = 901; let @{b} = 902; let @{c} = 903; cond v {" + c9dynSrc(p) + ": [1, @{a}, @{b}, @{c}, 0, 0], _: [2, @{a}, @{b}, @{c}, 0, 0]}"
+}
+
+// checkDynamic: a pattern that binds dynamically scoped names matches exactly when its lexical twin does and
+// binds the same values; when it does not match, the default arm still sees the enclosing dynamic bindings
+// (nothing bound by the matched prefix of a failed arm may remain visible).
+func (c *c9ctx) checkDynamic(sub []*c9pat, lets []*c9single, pv []*model.V, i int) {
+	w := c.w
+	si := c.single(sub, lets, i)
+	if si.forms.bad != "" {
+		return
+	}
+	src := c9dynProgram(sub[i])
+	e, o := obs.Compile(src)
+	if o.Panic != "" || o.Err != nil {
+		sig := o.Panic
+		if sig == "" {
+			sig = "cond-dynamic|compile-error|" + c9errClass(o.Err)
+		}
+		w.Eval(true)
+		w.Fail("compile", sig, src, "the pattern compiles with lexical names but not with dynamically scoped ones")
+		return
+	}
+	for _, v := range pv {
+		rv := c.real(v)
+		if rv == nil {
+			continue
+		}
+		oi := c.singleOut(si, v, rv)
+		if oi.cls != "match" && oi.cls != "no" {
+			continue
+		}
+		wantArm := 2
+		want := model.Tup("a", model.Num(c9Sentinel["a"]), "b", model.Num(c9Sentinel["b"]), "c", model.Num(c9Sentinel["c"]), "t", model.Num(0), "u", model.Num(0))
+		if oi.cls == "match" {
+			wantArm = 1
+			a, _ := oi.d.Get("a")
+			b, _ := oi.d.Get("b")
+			cc, _ := oi.d.Get("c")
+			want = model.Tup("a", a, "b", b, "c", cc, "t", model.Num(0), "u", model.Num(0))
+		}
+		got, gotArm := c9decode(obs.Eval(e, c.base.With("v", rv)), true)
+		w.Eval(true)
+		w.Count("applications", 1)
+		if got.cls == "match" && gotArm == wantArm && got.b == want.Enc() {
+			continue
+		}
+		witness := strings.Replace(src, "cond v", "cond "+c9vsrc(v), 1)
+		detail := fmt.Sprintf("with lexical names: %s; with dynamic names: arm %d %s", oi, gotArm, got)
+		switch {
+		case got.cls == "panic":
+			w.Fail("panic", got.msg, witness, detail)
+		case got.cls != "match":
+			w.Fail("wrong", fmt.Sprintf("cond-dynamic|want-arm%d|%s:%s", wantArm, got.cls, got.msg), witness, detail)
+		case gotArm != wantArm:
+			w.Fail("wrong", fmt.Sprintf("cond-dynamic|want-arm%d|got-arm%d", wantArm, gotArm), witness, detail)
+		case wantArm == 2:
+			w.Fail("wrong", "cond-dynamic|binding-of-failed-arm-visible-in-later-arm", witness, detail)
+		default:
+			w.Fail("wrong", "cond-dynamic|wrong-binding-in-arm", witness, detail)
+		}
+	}
+}
+
 // ---- phase 3: documentation examples ----
 
 type c9doc struct {
@@ -670,10 +812,11 @@ var C09 = core.Check{
 	Rule: "phase 1: every pattern of the bounded grammar {number, string, name, _, (expr), (e1, e2), array, tuple, dict, set, `...`, `...rest`, ?:fallback}: " +
 		"depth 1 with <=3 components over the leaves {1, name, _, (p)} and <=2 over {.., \"s\", (p, 3), (p - 1)}, depth 2 with <=2 components over {1, name, _} and 17 representative depth-1 structures " +
 		"(thorough adds depth 3 = every depth-2 structure wrapped once more in 12 ways, and 4-component depth-1 patterns), `...`/`...rest` at every array position, 1-2 trailing fallbacks, " +
-		"every set partition of the name slots over a, b, c (all repeated-name configurations), plus 15 hand-written special forms; x the values {every value the pattern denotes under all bindings of its names over {1, \"1\", [2]} and of its ...rest over 2-3 remainders, " +
+		"every set partition of the name slots over a, b, c (all repeated-name configurations), plus 22 hand-written special forms; x the values {every value the pattern denotes under all bindings of its names over {1, \"1\", [2]} and of its ...rest over 2-3 remainders, " +
 		"the one-step neighbours of the first 3 (thorough 8) instances (component changed/added/removed, wrong kind, offset/sparse array, duplicate dict key; two levels deep), a fixed 65-value universe of all kinds}, " +
 		"each applied in let, function-parameter and cond position (one compiled form per position and pattern) and compared with a structural reference matcher; " +
 		"phase 2: `cond v {P1: .., P2: .., _: ..}` for all ordered pairs of the depth<=1, <=2-component patterns, checked against the two arms' own let outcomes (first matching arm, only its bindings visible); " +
+		"phase 2b: every such pattern that binds plain names (each once) rewritten to bind the dynamically scoped @{a}, @{b}, @{c} inside `let @{a} = ..; ..; cond v {P: [1, @{a}, ..], _: [2, @{a}, ..]}`: same arm and bindings as the lexical twin, and the default arm sees the enclosing dynamic bindings (nothing bound by the matched prefix of a failed arm stays visible); " +
 		"phase 3: the 71 examples of binding.md / example.md with their documented results. " +
 		"non-trivial = the reference says the pattern matches (or may match) the value, or the value is an instance or one-step neighbour of an instance of the pattern; for pairs: some arm matches",
 	Assume: []string{
